@@ -93,7 +93,8 @@ def run(ctx):
                 model = compile_lvs(text)
                 checker = Checker(model, lvs.USER_FNS)
         except (SemanticError, LvsModelError) as e:
-            ctx.report(f'clean-schema-rejected:{type(e).__name__}', f'a statically clean schema was rejected: {e}', w)
+            # whether clean schemas are accepted is C13's clause; here a schema without a compiled model cannot be judged
+            ctx.event('schema-rejected-not-judged')
             continue
         except Exception as e:   # noqa
             ctx.report(f'compile-raises:{type(e).__name__}@{raising_site(e)[0]}', f'{e!r}', w)
@@ -155,6 +156,7 @@ def run(ctx):
     for k in ('name-matching', 'name-not-matching'):
         ctx.need_event(k)
     ctx.need_class('schema-with-double-reference')
+    ctx.need_event('schema', 40)      # most generated schemas must have compiled, otherwise nothing was decided
     ctx.need_class('template-schema')
     ctx.assumptions = ['interior tree nodes reported as #_<id> are not matches for a rule and are filtered out',
                        'constraints refer only to patterns of the rule itself or of rules it references']
